@@ -231,8 +231,14 @@ def run(out: Outcome) -> None:
                     out.violation(f"streaming MMD returned a value after {t} < window_size={w} updates", rep)
                     break
                 continue
+            if r is None and refit_at and t >= refit_at and t - refit_at + 1 < w:
+                # a second fit() on a running detector: whether the window keeps sliding (the current code, the model) or starts again is not fixed by the property
+                out.mismatch(f"streaming MMD returned nothing {t - refit_at + 1} < window_size={w} updates after a second fit(): it restarts its window at fit(), the model keeps it sliding", rep)
+                expect.append(None)
+                break
             if r is None:
                 out.violation(f"streaming MMD returned nothing at update {t} >= window_size={w}", rep)
+                expect.append(None)
                 break
             want = unbiased(ref, np.array(stream[t - w: t]), sigma)
             expect.append((float(r.distance), rep))
